@@ -164,7 +164,7 @@ def c02(run):
     s = i2s_env(run, 6, 40 if t else 8, 300, "hist_nv6")
     # operands that live in ANOTHER environment (what two BDDSet::new sets or a {definition} hand to an operation): the result
     # must still be the canonical diagram of the function (Trace_Bdd: structure = specification's result, WF)
-    checks_bdd.record_and_validate(run, 3, "uniform", 6000 if t else 1500, "xbin,xite,xnot,xquant,xmodel,xretain", "cross_env_nv3")
+    checks_bdd.record_and_validate(run, 3, "uniform", 6000 if t else 1500, "xbin,xite,xnot,xquant,xmodel,xretain,xcc", "cross_env_nv3")
     checks_bdd.record_and_validate(run, 5, "random", 3000 if t else 600, "xbin,xite,xnot,xquant,xmodel,xretain", "cross_env_nv5")
     run.nontrivial = s["max_table_size"]
     run.exhaustive = True
